@@ -160,6 +160,35 @@ def _helper_level(method):
     return list(res)[0] if len(res) == 1 else None
 
 
+def _helper_events(g, pn):
+    """events of a helper body, in source order; text written from a parameter is ('litparam', param, target)"""
+    ev = []
+    names = set(x for x in pn if x)
+    for n in sir.walk(g.body):
+        k = n.get("k")
+        if k == "mcall":
+            lvl = _level_arg(n["args"])
+            recv = sir.strip_ref(n["recv"])
+            if lvl and recv.get("k") == "path" and recv["s"] in names:
+                ev.append(("child", recv["s"], lvl, n["m"]))
+                continue
+            if n["m"] in ("write_token", "write_str") and n["args"]:
+                a = sir.strip_ref(n["args"][0])
+                tgt = sir.expr_str(sir.strip_ref(n["recv"]))
+                if a.get("k") == "lit" and a.get("t") == "str":
+                    ev.append(("lit", a["v"], tgt))
+                elif a.get("k") == "path" and a.get("s") in names:
+                    ev.append(("litparam", a["s"], tgt))
+        elif k == "call":
+            lvl = _level_arg(n["args"])
+            if lvl:
+                for a in n["args"]:
+                    for nm in names:
+                        if _refers(a, nm):
+                            ev.append(("child", nm, lvl, sir.call_path(n) or "?"))
+    return ev
+
+
 def arm_events(body, names):
     """Source-order events of an arm: ('child', binding, level, via) for calls that generate/print a child with an
     explicit ExpressionLevel, ('lit', text) for literal text written. `names` = binding names of the child fields."""
@@ -193,6 +222,42 @@ def arm_events(body, names):
                 continue
         elif k == "call":
             lvl = _level_arg(n["args"])
+            if not lvl and INDEX is not None:
+                # a private helper that prints `<operator text> <child at a fixed level>`: replay its events with this call's arguments
+                hs = [g for g in INDEX.fns if g.name == (sir.call_name(n) or "") and g.body and not g.base]
+                if len(hs) == 1 and not getattr(arm_events, "_busy", False):
+                    g = hs[0]
+                    pn = [x for x in g.param_names()]
+                    if len(pn) == len(n["args"]):
+                        amap = dict(zip(pn, n["args"]))
+                        arm_events._busy = True
+                        try:
+                            sub = arm_events(g.body, set(x for x in pn if x))
+                            # literal text handed over as a parameter
+                            for x in sir.walk(g.body):
+                                pass
+                        finally:
+                            arm_events._busy = False
+                        out_ev = []
+                        okh = bool(sub)
+                        for e_ in _helper_events(g, pn):
+                            if e_[0] == "child":
+                                a_ = sir.strip_ref(amap.get(e_[1], {}))
+                                nm_ = a_.get("s") if a_.get("k") == "path" else None
+                                if nm_ in names:
+                                    out_ev.append(("child", nm_, e_[2], e_[3]))
+                                # other parameters mentioned in the printer call (the writer itself, ..) are not children
+                            elif e_[0] == "litparam":
+                                a_ = sir.strip_ref(amap.get(e_[1], {}))
+                                if a_.get("k") == "lit" and a_.get("t") == "str":
+                                    out_ev.append(("lit", a_["v"], e_[2]))
+                                else:
+                                    okh = False
+                            else:
+                                out_ev.append(e_)
+                        if okh and any(x[0] == "child" for x in out_ev):
+                            ev.extend(out_ev)
+                            continue
             if lvl:
                 for a in n["args"]:
                     for nm in names:
